@@ -13,7 +13,7 @@ RULE = ('cases = histories: random call sequences (40-80 calls) over a pool of s
         'dictionaries, frequency lists) drawn from the public operations of C01-C12, C16, C17: bias-point solver and queries, port '
         'voltage/impedance, the nine network transformers with shared exemption lists, load_network, to_complex, serialize / '
         'deserialize, transform / transform_circuit / frequency_components, DC / complex / time-domain / frequency-domain / transient '
-        'solutions, state-space models with shared value dictionaries.  After every call: deep fingerprint of every pool object and '
+        'solutions, state-space models with shared value dictionaries; and of the schematic layer: create_schematic / simulate on shared declarative descriptions (elements + solution section with reverse flags), save/load of the resulting schematic, circuit_translator and the annotation texts.  After every call: deep fingerprint of every pool object and '
         'of the __defaults__ of every library function must equal the initial one; every result must equal (bit for bit, float.hex) '
         'the result of the same call on a freshly built pool in a fresh interpreter process.  distinct = distinct (history seed); '
         'non-trivial = history with >= 10 distinct operations including a transformer, a loader and an analysis')
@@ -101,6 +101,23 @@ def build_pool(seed):
     pool['flat0'] = {'a': 1 + 2j, 'b': 3.5, 'c': -4j, 'name': 'x'}          # flat dictionary with complex leaves
     pool['polar0'] = {'abs': 2.0, 'phase': 30.0}
     pool['text0'] = '{"a": {"real": 1.0, "imag": 2.0}, "l": [1, {"z": {"abs": 2.0, "phase": 0.5}}, [{"w": {"real": 0.0, "imag": -1.0}}]]}'
+    # declarative schematic descriptions (SimpleSimulation): elements with directions / place_after / reverse flags and a solution section
+    pool['sdesc0'] = {'unit': 3, 'elements': [
+        {'type': 'voltage_source', 'name': 'V', 'V': 12.0, 'direction': 'up'},
+        {'type': 'resistor', 'name': 'R1', 'R': 10.0, 'direction': 'right'},
+        {'type': 'resistor', 'name': 'R2', 'R': 20.0, 'direction': 'down'},
+        {'type': 'line', 'direction': 'left'}, {'type': 'ground'}],
+        'solution': {'type': 'dc', 'precision': 3, 'voltages': [{'name': 'R1'}, {'name': 'R2', 'reverse': True}],
+                     'currents': [{'name': 'R1', 'reverse': True}, {'name': 'V'}], 'powers': [{'name': 'R2'}]}}
+    pool['sdesc1'] = {'unit': 3, 'elements': [
+        {'type': 'current_source', 'name': 'I', 'I': 0.5, 'direction': 'up', 'reverse': True},
+        {'type': 'resistor', 'name': 'Ra', 'R': 47.0, 'direction': 'right'},
+        {'type': 'conductance', 'name': 'G', 'G': 0.1, 'direction': 'down'},
+        {'type': 'line', 'direction': 'left'},
+        {'type': 'resistor', 'name': 'Rb', 'R': 5.0, 'direction': 'down', 'place_after': 'Ra'},
+        {'type': 'ground'}],
+        'solution': {'type': 'real', 'precision': 4, 'voltages': [{'name': 'Ra', 'reverse': True}, {'name': 'G'}],
+                     'currents': [{'name': 'Ra'}], 'powers': [{'name': 'G', 'reverse': True}]}}
     pool['wlist0'] = [0.0, 1.0, 50.0]
     pool['tgrid'] = np.linspace(0.0, 0.5, 40)
     return pool
@@ -242,6 +259,25 @@ def run_op(pool, op):
             c = pool[args[0]]
             net = cc.transform_circuit(c, 0.0)
             return fp(cimp.open_circuit_impedance(c, net.node_labels[0], net.node_labels[-1], np.array([0.0, 3.0])))
+        if name in ('create_schematic', 'simulate', 'schematic_roundtrip'):
+            import matplotlib.pyplot as plt
+            from CircuitCalculator.SimpleSimulation.schematic import create_schematic
+            from CircuitCalculator.SimpleSimulation.simulator import simulate
+            from CircuitCalculator.SimpleCircuit.DiagramTranslator import circuit_translator
+            from CircuitCalculator.SimpleCircuit import dump_load as sdl
+            from CircuitCalculator.SimpleCircuit import Elements as elm
+            try:
+                if name == 'simulate':
+                    return fp(simulate({'circuit': pool[args[0]]}))
+                sch = create_schematic(pool[args[0]])
+                if name == 'schematic_roundtrip':
+                    sch = sdl.deserialize(sdl.serialize(sch, 'json'), 'json')
+                c = circuit_translator(sch)
+                texts = [[type(e).__name__, [l.label for l in getattr(e, '_userlabels', [])]] for e in sch.elements
+                         if isinstance(e, (elm.VoltageLabel, elm.CurrentLabel, elm.PowerLabel))]
+                return fp([[(x.type, x.id, tuple(x.nodes), dict(x.value)) for x in c.components], c.ground_node, texts])
+            finally:
+                plt.close('all')
         return 'UNKNOWN-OP'
     except Exception as e:  # noqa: BLE001
         return 'EXC:' + type(e).__name__
@@ -266,6 +302,8 @@ def all_ops():
     for c in ('circ0', 'circ1'):
         ops += [['ssm', c], ['ssm_default', c], ['transient', c]]
     ops += [['nssm', 0], ['nssm', 1]]
+    for d in ('sdesc0', 'sdesc1'):
+        ops += [['create_schematic', d], ['simulate', d], ['schematic_roundtrip', d]]
     return ops
 
 
@@ -332,11 +370,12 @@ def examine(ctx, pool_seed, hist_seed, length, must=()):
             return
         p1 = pool_fp(pool)
         for k in p0:
-            if p1[k] != p0[k] and (k, op[0]) not in seen_mut:
-                seen_mut.add((k, op[0]))
-                ctx.violation('C20:argument-mutated:' + op[0] + (':' + op[1] if op[0] == 'transformer' else ''),
-                              f'call {op} changed the shared object {k!r}', dict(rep, object=k, history=[op]))
-                pool[k] = build_pool(pool_seed)[k]
+            if p1[k] != p0[k]:
+                if (k, op[0]) not in seen_mut:
+                    seen_mut.add((k, op[0]))
+                    ctx.violation('C20:argument-mutated:' + op[0] + (':' + op[1] if op[0] == 'transformer' else ''),
+                                  f'call {op} changed the shared object {k!r}', dict(rep, object=k, history=[op]))
+                pool[k] = build_pool(pool_seed)[k]        # restore, so that later calls are not blamed for it
         d1 = library_defaults()
         for k in d0:
             if d1.get(k) != d0[k] and (k, 'd') not in seen_mut:
